@@ -214,7 +214,8 @@ pub fn run(cfg: &Cfg) -> i32 {
          at top level and inside load-configuration-results) parsed by the real reply future of one operation per reply type; \
          distinct = distinct (reply type, document); non-trivial = document with at least one rpc-error",
     );
-    let n = cfg.count(24_000, 2_000_000);
+    // the interpreter is ~1000x slower: a small slice there
+    let n = if cfg.stage == "miri" { cfg.count(40, 1_600) } else { cfg.count(24_000, 2_000_000) };
     let mut s = sess::establish_ok(crate::memwire::ALL_CAPS);
     let mut uniq = 0u32;
     for i in 0..n {
